@@ -25,7 +25,7 @@ TSilent == /\ Silent
            /\ \/ OpenTemp \/ OpenFails \/ WriteFails \/ CleanupTemp \/ CloseTemp \/ Rename \/ Scan
               \/ (s.wpc = "write" /\ \E k \in 1..(s.n[s.cur] - s.written) : Write(k))
 
-TPersist == IsEv("Persist") /\ E.id = s.next /\ Persist(E.n) /\ Consume
+TPersist == IsEv("Persist") /\ Persist(E.id, E.n) /\ Consume
 \* UnloadChunk returned: "saved" only if the model renamed a complete file; an error only if the model cleaned up
 TUnload == /\ IsEv("Unload") /\ Consume /\ UNCHANGED s /\ s.wpc = "idle"
            /\ \/ E.res \in {"saved", "already"} /\ E.id \in s.saved
@@ -36,7 +36,7 @@ TFiles == /\ IsEv("Files") /\ Consume /\ UNCHANGED s /\ s.phase = "dead"
           /\ E.unitsExact
           /\ {<<f[1], f[2]>> : f \in SetOfSeq(E.files)} = {<<i, s.file[i]>> : i \in {j \in 1..K : s.file[j] # NOFILE}}
           /\ {<<f[1], f[2]>> : f \in SetOfSeq(E.temps)} = {<<i, s.temp[i]>> : i \in {j \in 1..K : s.temp[j] # NOFILE}}
-TRespawn == IsEv("Respawn") /\ Respawn(E.first) /\ Consume
+TRespawn == IsEv("Respawn") /\ Respawn /\ Consume
 TDamage == /\ IsEv("Damage") /\ Consume
            /\ \/ E.kind = "unreadable" /\ UNCHANGED s
               \/ E.kind = "zero" /\ DamageZero(E.id)
